@@ -29,6 +29,10 @@ CHECKS = {
    text="2-3 threads run real validate calls (shared pandas schema with coerce / frame dtype / regex columns, different schemas, polars DataFrame and LazyFrame, polars validate beside a user config_context, first use of a DataFrameModel, first use of the backend registry) under a scheduler that preempts only between two Python statements of pandera code: systematic single preemption in both directions, a grid of double preemptions and seeded random switching; every thread's outcome must equal its solo outcome bit-for-bit and config context, CONFIG and every schema fingerprint after join must equal those before. The evidence lists distinct executed interleavings and yield points.",
    note="Preemption points are a subset of real GIL switch points (no impossible interleaving); races inside a single pandas/polars call are not explored; 2-3 threads, frames <= 5 rows.",
    ref="4/C07"),
+ "C12": dict(cat="exploration", tech="round-trip monitor: the real to_yaml/from_yaml, to_json/from_json and to_script+exec of generated schemas compared with a pristine twin (pandera ==, projection on the serialisable attributes, second-generation text, verdict vectors); witnesses minimised by re-execution",
+   text="Every case builds a DataFrameSchema from a spec and runs the real to_yaml/from_yaml, to_json/from_json and to_script+exec. Cases come from a deterministic catalogue with one adversarial serialisable attribute at a time (every frame/column/index attribute, every built-in check x value family x option subset, every dtype alias, duplicated check kinds) plus seeded combinations of 1-4 such features. Each re-read schema is compared with an untouched twin by pandera's ==, by a projection on the attributes the statement lists, by the second-generation text and by verdicts on 6 boundary probe frames; failures are minimised by re-executing the writers with one feature removed at a time and classified by call site.",
+   note="Not judged: JSON route for non-string column labels, int-vs-float and +-0.0-only differences, ge/le pairs the writer refuses as contradictory. Not generated: custom/registered checks, Check title/description/error/groupby, Column default/metadata/parsers, MultiIndex options, tz names other than UTC in statistics. Trusted: pvm fingerprint/snap/harness, pandas/yaml/black.",
+   ref="4/C12"),
  "C14": dict(cat="exploration", tech="round-trip acceptance monitor on real infer_schema executions with exact-arithmetic comparison of every inferred bound against the data",
    text="Generated pandas frames and series go through the real infer_schema -> validate -> to_yaml/from_yaml -> validate. Workload: a deterministic catalogue of every column class x {plain, some nulls, all null, empty} and every index shape, then seeded random frames (ints to the width limits and beyond 2**53, floats with inf/-0.0/subnormals, bool, str, mixed object, categorical, datetime incl. sub-second / tz-aware, timedelta, nullable extension dtypes, period, interval, Index and MultiIndex). The monitor checks acceptance, value-equality of the returned object, equality of every inferred bound with the data's min/max recomputed on Python ints / Fractions / Timestamps, and an equal verdict after the YAML round trip; failures are re-run one component at a time and keyed by stage plus data-derived flags.",
    note="Not judged: dtype/representation changes with equal values (coerce=True is part of every inferred schema); tightness for bool, timedelta, complex; SeriesSchema serialisation (no YAML writer); JSON / to_script. Not generated: duplicate column labels, MultiIndex columns, Decimal / datetime.time / bytes / Period object columns. Trusted: pandas construction of the frames, Python int/Fraction/Timestamp comparison.",
